@@ -92,9 +92,11 @@ theorem checkBankOutput_ok (b : Bank) (cur size : Nat) (write : Bool)
     simp only at h
     refine ⟨fun sz hc => (by cases hc), ?_⟩
     intro hw
-    cases ho : b.outp with
-    | none => rw [ho] at h; simp [hw] at h
-    | some _ => rfl
+    split at h
+    · cases h
+    · cases ho : b.outp with
+      | none => rw [ho] at h; simp [hw] at h
+      | some _ => rfl
   | some sz =>
     rw [hsz] at h
     simp only at h
@@ -103,9 +105,33 @@ theorem checkBankOutput_ok (b : Bank) (cur size : Nat) (write : Bool)
     · rw [if_neg hc] at h
       refine ⟨fun sz' hs => by (simp only [Option.some.injEq] at hs; omega), ?_⟩
       intro hw
-      cases ho : b.outp with
-      | none => rw [ho] at h; simp [hw] at h
-      | some _ => rfl
+      split at h
+      · cases h
+      · cases ho : b.outp with
+        | none => rw [ho] at h; simp [hw] at h
+        | some _ => rfl
+
+/-- **an accepted item's output position fits a machine word**: `outp + position + size` is never taken modulo 2^64 -/
+theorem checkBankOutput_fits (b : Bank) (cur size : Nat) (write : Bool)
+    (h : checkBankOutput b cur size write = .ok ()) : ∀ o, b.outp = some o → o + cur + size < 2 ^ 64 := by
+  intro o ho
+  have hf : outputFits b cur size = true := by
+    unfold checkBankOutput at h
+    cases hb : outputFits b cur size with
+    | true => rfl
+    | false =>
+      rw [hb] at h
+      cases hsz : b.size with
+      | none => rw [hsz] at h; simp at h
+      | some sz =>
+        rw [hsz] at h
+        simp only at h
+        split at h
+        · cases h
+        · simp at h
+  unfold outputFits at hf
+  rw [ho] at hf
+  simpa using hf
 
 theorem checkBankUsage_ok (banks : List Bank) (s : IterSt) (h : checkBankUsage banks s = .ok ()) :
     ¬ (s.bank = 0 ∧ banks.length ≠ 1) := by
